@@ -18,9 +18,11 @@ package files
 
 import (
 	"context"
+	"errors"
 	"fmt"
 	"io"
 	"log"
+	"os"
 
 	"perkeep.org/pkg/blob"
 )
@@ -91,6 +93,12 @@ func (ds *Storage) ReceiveBlob(ctx context.Context, blobRef blob.Ref, source io.
 	}
 
 	stat, err = ds.fs.Lstat(fileName)
+	if errors.Is(err, os.ErrNotExist) {
+		// The rename succeeded, so the blob was stored; a concurrent
+		// RemoveBlobs has removed it again since.
+		success = true
+		return blob.SizedRef{Ref: blobRef, Size: uint32(written)}, nil
+	}
 	if err != nil {
 		return blob.SizedRef{}, err
 	}
